@@ -19,6 +19,7 @@ fn main() {
         "parse_program" => parse_program(&input),
         "instruction_views" => instruction_views(&input),
         "used_qubits" => used_qubits(&input),
+        "serialize_repeat" => serialize_repeat(&input),
         other => {
             eprintln!("unknown replay kind {other}");
             std::process::exit(64);
@@ -114,6 +115,33 @@ fn used_qubits(text: &str) -> Result<(), String> {
     check("program + program", &(program.clone() + program.clone()))?;
     if let Ok(expanded) = program.expand_calibrations() {
         check("expand_calibrations", &expanded)?;
+    }
+    Ok(())
+}
+
+/// C08: building a program from the same instructions always gives byte-identical text, definitions in the
+/// order they were first added
+fn serialize_repeat(text: &str) -> Result<(), String> {
+    use quil_rs::quil::Quil;
+    let first = Program::from_str(text).map_err(|e| format!("input does not parse: {e}"))?;
+    let reference = first.to_quil().map_err(|e| format!("{e}"))?;
+    let mut distinct = std::collections::BTreeSet::new();
+    distinct.insert(reference.clone());
+    for _ in 0..24 {
+        let again = Program::from_instructions(first.to_instructions());
+        distinct.insert(again.to_quil().map_err(|e| format!("{e}"))?);
+        let parsed = Program::from_str(text).map_err(|e| format!("{e}"))?;
+        distinct.insert(parsed.to_quil().map_err(|e| format!("{e}"))?);
+    }
+    println!("{} distinct serializations of the same instruction sequence", distinct.len());
+    if distinct.len() > 1 {
+        let mut it = distinct.iter();
+        return Err(format!(
+            "the same instruction sequence serialized to {} different texts, e.g.\n--- A\n{}\n--- B\n{}",
+            distinct.len(),
+            it.next().unwrap(),
+            it.next().unwrap()
+        ));
     }
     Ok(())
 }
